@@ -142,6 +142,12 @@ pub fn run(prop: Prop, tier: Tier, seed: u64) -> i32 {
     if prop == Prop::C01 {
         cli_perft_part(&mut run, &starts);
     }
+    if prop == Prop::C04 {
+        // the real command loop of the binary: sessions of several related position commands
+        // (repeated, continued, moves taken back, last moves replaced); the board and key the
+        // handler leaves after each command against the oracle's view of that command alone
+        super::timed::position_sessions(&mut run, "C04");
+    }
     run.floor_distinct = 50;
     run.finish()
 }
